@@ -1,0 +1,26 @@
+//go:build verif
+
+// Contracts for the verification machinery in /verif (comment-only; no declarations).
+//
+// C07: the protocol ID of a swarm stream. SetProtocol records the ID only after the stream's resource scope accepted
+// it (the stream is charged to exactly that protocol's scope, see rcmgr (*streamScope).SetProtocol under C03);
+// a refused SetProtocol leaves the recorded protocol untouched; Protocol reports exactly what was recorded.
+// ghost.atomptr(x) = the pointer held by the sync/atomic.Pointer x (specs/stdlib.spec).
+
+package swarm
+
+//@ pred protoAt(q *protocol.ID, id protocol.ID) = q != nil && *q == id
+
+//@ func (s *Stream) SetProtocol
+//@ prop C07
+//@ ensures ncalls(SetProtocol, 0) == 1 && arg(SetProtocol, 0, 0) == s.scope && arg(SetProtocol, 0, 1) == p
+//@ ensures result == ret(SetProtocol, 0, 0)
+//@ ensures result == nil ==> protoAt(ghost.atomptr(&s.protocol), p)
+//@ ensures result != nil ==> ghost.atomptr(&s.protocol) == old(ghost.atomptr(&s.protocol))
+//@ modifies ghost.atomptr(&s.protocol)
+
+//@ func (s *Stream) Protocol
+//@ prop C07
+//@ ensures ghost.atomptr(&s.protocol) == nil ==> result == ""
+//@ ensures ghost.atomptr(&s.protocol) != nil ==> protoAt(ghost.atomptr(&s.protocol), result)
+//@ modifies nothing
